@@ -131,7 +131,7 @@ pub fn run_campaign(prop: &'static str, seed: u64, stats: &mut Stats) {
         .arg(format!("-seed={lf_seed}"))
         .arg(format!("-max_len={}", c.max_len))
         .arg(format!("-max_total_time={}", c.max_seconds))
-        .args(["-len_control=0", "-print_final_stats=1", "-timeout=20", "-rss_limit_mb=4096"])
+        .args(["-len_control=0", "-print_final_stats=1", "-timeout=60", "-rss_limit_mb=4096"])
         .output();
     let out = match out {
         Ok(o) => o,
